@@ -47,6 +47,8 @@ struct FontInfo {
     /// skrifa charmap mappings of the original, sorted by character
     maps: Vec<(u32, u32)>,
     comps: Vec<Vec<u32>>,
+    /// bytes of each glyph in glyf
+    glen: Vec<u32>,
     composites: Vec<u32>,
     var_glyphs: Vec<u32>,
     naxes: usize,
@@ -67,7 +69,7 @@ fn be32(d: &[u8], o: usize) -> Option<u32> {
 
 /// Independent reading of glyf/loca: for each glyph id < maxp.numGlyphs the component glyph ids of a composite glyph
 /// (empty for simple / empty / unreadable glyphs). Second value: is the glyph a composite.
-fn parse_components(font: &FontRef) -> Option<(Vec<Vec<u32>>, Vec<bool>)> {
+fn parse_components(font: &FontRef) -> Option<(Vec<Vec<u32>>, Vec<bool>, Vec<u32>)> {
     let head = font.table_data(Tag::new(b"head"))?;
     let maxp = font.table_data(Tag::new(b"maxp"))?;
     let loca = font.table_data(Tag::new(b"loca"))?;
@@ -84,12 +86,14 @@ fn parse_components(font: &FontRef) -> Option<(Vec<Vec<u32>>, Vec<bool>)> {
     };
     let mut comps = vec![vec![]; n];
     let mut is_comp = vec![false; n];
+    let mut glen = vec![0u32; n];
     for g in 0..n {
         let (Some(s), Some(e)) = (off(g), off(g + 1)) else { continue };
         if e <= s || e > glyf.len() {
             continue;
         }
         let d = &glyf[s..e];
+        glen[g] = (e - s) as u32;
         let Some(nc) = be16(d, 0) else { continue };
         if (nc as i16) >= 0 {
             continue;
@@ -113,7 +117,7 @@ fn parse_components(font: &FontRef) -> Option<(Vec<Vec<u32>>, Vec<bool>)> {
             }
         }
     }
-    Some((comps, is_comp))
+    Some((comps, is_comp, glen))
 }
 
 fn charmap_mappings(font: &FontRef) -> Vec<(u32, u32)> {
@@ -149,7 +153,7 @@ fn load_fonts() -> Vec<FontInfo> {
             if n == 0 {
                 continue;
             }
-            let Some((comps, is_comp)) = parse_components(&font) else { continue };
+            let Some((comps, is_comp, glen)) = parse_components(&font) else { continue };
             let composites: Vec<u32> = (0..n).filter(|g| is_comp[*g as usize]).collect();
             let naxes = font.axes().len();
             let var_glyphs: Vec<u32> = match font.gvar() {
@@ -167,6 +171,7 @@ fn load_fonts() -> Vec<FontInfo> {
                 n,
                 maps: charmap_mappings(&font),
                 comps,
+                glen,
                 composites,
                 var_glyphs,
                 naxes,
@@ -258,7 +263,7 @@ fn materialise(sel: &Sel, len: usize, special: &[usize]) -> Vec<usize> {
 fn sel_strategy(with_special: bool) -> BoxedStrategy<Sel> {
     let raw = || any::<u32>();
     prop_oneof![
-        3 => Just(Sel::None),
+        (if with_special { 7 } else { 3 }) => Just(Sel::None),
         2 => raw().prop_map(|r| Sel::Some(vec![r])),
         4 => proptest::collection::vec(raw(), 2..10).prop_map(Sel::Some),
         3 => (raw(), 2u32..64).prop_map(|(s, n)| Sel::Range(s, n)),
@@ -349,7 +354,14 @@ fn request_strategy(fi: usize) -> BoxedStrategy<Case> {
     )
         .prop_map(move |(csel, gsel, xc, xg, flags, ppems, locs, pick, favour_var)| {
             let f = &fonts()[fi];
+            // a font with very many character mappings per glyph (AdobeBlank: 1.1 M): scattered selections make the
+            // subset cmap hundreds of times larger than the original one, which klippa's serializer refuses (listed
+            // finding, reproduced by the kf stage); keep scattered selections small there
+            let huge = f.maps.len() > 50_000;
             let mut chars: Vec<u32> = materialise(&csel, f.maps.len(), &[]).into_iter().map(|i| f.maps[i].0).collect();
+            if huge && matches!(csel, Sel::Some(_) | Sel::Stride(..) | Sel::Special(_)) {
+                chars.truncate(2000);
+            }
             chars.extend(xc);
             let special: Vec<usize> = if (favour_var && !f.var_glyphs.is_empty()) || f.composites.is_empty() {
                 f.var_glyphs.iter().map(|g| *g as usize).collect()
@@ -357,6 +369,9 @@ fn request_strategy(fi: usize) -> BoxedStrategy<Case> {
                 f.composites.iter().map(|g| *g as usize).collect()
             };
             let mut gids: Vec<u32> = materialise(&gsel, f.n as usize, &special).into_iter().map(|g| g as u32).collect();
+            if huge && matches!(gsel, Sel::Some(_) | Sel::Stride(..) | Sel::Special(_)) {
+                gids.truncate(8);
+            }
             gids.extend(xg);
             Case { font: f.name.clone(), chars, gids, star_chars: false, star_gids: false, flags, ppems, locs, pick }
         })
@@ -524,6 +539,8 @@ struct Side<'a> {
 }
 
 struct PassOut {
+    /// first failure attributed to a listed defect of the output regime (reported after everything else was checked)
+    soft: Option<Fail>,
     bytes: Vec<u8>,
     map: Vec<(u32, u32)>,
     kept_composite: bool,
@@ -539,6 +556,7 @@ fn coords_of(loc: &[i16]) -> Vec<F2Dot14> {
 /// All predicates of the statement between font `a` and the result of subsetting it with (chars, gids, flags).
 #[allow(clippy::too_many_arguments)]
 fn check_pass(
+    font: &str,
     pass: &str,
     a: &Side,
     chars: &ReqChars,
@@ -551,7 +569,15 @@ fn check_pass(
     let flags = c.flags;
     let retain = flags & F_RETAIN_GIDS != 0;
     let (res, map) = guarded(|| run_klippa(&a.font, chars, gids, flags))?;
-    let bytes = res.map_err(|e| fail(pass, "subset-err", format!("subset_font returned Err: {e}")))?;
+    // the signature names the table whose subsetting failed
+    // signatures of listed findings carry the font: a different defect on another font is still reported
+    let fpass = if pass.starts_with(font) { pass.to_string() } else { format!("{font}|{pass}") };
+    let fpass = fpass.as_str();
+    let bytes = res.map_err(|e| fail(fpass, &format!("subset-err|{}", e.split('\'').nth(1).unwrap_or("?").trim()), format!("subset_font returned Err: {e}")))?;
+    if let Ok(dir) = std::env::var("C17_DUMP") {
+        // debugging aid for replays: keep the subset files
+        let _ = std::fs::write(format!("{dir}/{}subset.ttf", pass.replace('|', "_")), &bytes);
+    }
     let b = FontRef::new(&bytes).map_err(|e| fail(pass, "open", format!("the subset does not open: {e}")))?;
     for t in [b"glyf", b"loca", b"maxp", b"head", b"hhea", b"hmtx"] {
         if b.table_data(Tag::new(t)).is_none() {
@@ -559,6 +585,11 @@ fn check_pass(
         }
     }
     let bn = b.maxp().map_err(|e| fail(pass, "open", format!("maxp of the subset unreadable: {e}")))?.num_glyphs() as u32;
+    // Listed finding: HVAR silently dropped. Failures of the affected predicates then carry the font and the cause in
+    // their signature, and the remaining predicates are still checked (reported at the end of the case).
+    let big_glyf = b.table_data(Tag::new(b"glyf")).map(|d| d.len() >= 0x10000).unwrap_or(false);
+    let regime_hvar = a.font.table_data(Tag::new(b"HVAR")).is_some() && b.table_data(Tag::new(b"HVAR")).is_none();
+    let mut soft: Option<Fail> = None;
 
     // --- the renumbering
     let mut new_ids = BTreeSet::new();
@@ -618,6 +649,7 @@ fn check_pass(
     // --- characters
     if check_chars {
         let bcm = b.charmap();
+        let mut char_fail: Option<Fail> = None;
         let check_one = |ch: u32| -> CaseResult {
             let want = acm.map(ch).map(|g| g.to_u32());
             let want_new = match want {
@@ -637,14 +669,21 @@ fn check_pass(
         match chars {
             ReqChars::All => {
                 for (ch, _) in a.maps {
-                    check_one(*ch)?;
+                    if let Err(f) = check_one(*ch) {
+                        char_fail.get_or_insert(f);
+                    }
                 }
             }
             ReqChars::Set(s) => {
                 for ch in s {
-                    check_one(*ch)?;
+                    if let Err(f) = check_one(*ch) {
+                        char_fail.get_or_insert(f);
+                    }
                 }
             }
+        }
+        if let Some(f) = char_fail.take() {
+            return Err(f);
         }
         for (ch, g) in bcm.mappings() {
             let og = acm.map(ch).map(|g| g.to_u32());
@@ -718,7 +757,15 @@ fn check_pass(
                             g.draw(DrawSettings::unhinted(*size, LocationRef::new(loc)), &mut s).ok().map(|_| s)
                         });
                         if da != db {
-                            return Err(fail(pass, "outline", format!("{}: original [{}] subset [{}]", at(), render(&da), render(&db))));
+                            let msg = format!("{}: original [{}] subset [{}]", at(), render(&da), render(&db));
+                            let regime = if !notdef_outline && uses_glyph_zero(a.comps, old) {
+                                "outline|glyph-0-is-a-component"
+                            } else if regime_hvar && !loc.is_empty() {
+                                "outline|HVAR-dropped"
+                            } else {
+                                return Err(fail(pass, "outline", msg));
+                            };
+                            soft.get_or_insert(fail(fpass, regime, msg));
                         }
                         compared += 1;
                     } else {
@@ -727,11 +774,19 @@ fn check_pass(
                 }
                 let (wa, wb) = (am.advance_width(og), bm.advance_width(ng));
                 if wa.map(f32::to_bits) != wb.map(f32::to_bits) {
-                    return Err(fail(pass, "advance", format!("{}: advance {wa:?} became {wb:?}", at())));
+                    let msg = format!("{}: advance {wa:?} became {wb:?}", at());
+                    if !regime_hvar || loc.is_empty() {
+                        return Err(fail(pass, "advance", msg));
+                    }
+                    soft.get_or_insert(fail(fpass, "advance|HVAR-dropped", msg));
                 }
                 let (la, lb) = (am.left_side_bearing(og), bm.left_side_bearing(ng));
                 if la.map(f32::to_bits) != lb.map(f32::to_bits) {
-                    return Err(fail(pass, "lsb", format!("{}: left side bearing {la:?} became {lb:?}", at())));
+                    let msg = format!("{}: left side bearing {la:?} became {lb:?}", at());
+                    if !regime_hvar || loc.is_empty() {
+                        return Err(fail(pass, "lsb", msg));
+                    }
+                    soft.get_or_insert(fail(fpass, "lsb|HVAR-dropped", msg));
                 }
             }
         }
@@ -739,7 +794,45 @@ fn check_pass(
     stats.evals(compared as u64);
     let kept_composite = kept.keys().any(|g| a.comps.get(*g as usize).map(|v| !v.is_empty()).unwrap_or(false));
     let kept_variable = var_glyphs.iter().any(|g| kept.contains_key(g));
-    Ok(PassOut { dropped: (kept.len() as u32) < a.n, bytes, map, kept_composite, kept_variable, compared })
+    if big_glyf && !pass.starts_with(font) {
+        stats.class(&format!("{pass}subset-glyf>=64K"));
+    }
+    if cmap4_range_offset_segments(&b) >= 2 && !pass.starts_with(font) {
+        stats.class(&format!("{pass}subset-cmap4-several-range-offset-segments"));
+    }
+    if regime_hvar {
+        stats.class("regime:HVAR-dropped");
+    }
+    Ok(PassOut { soft, dropped: (kept.len() as u32) < a.n, bytes, map, kept_composite, kept_variable, compared })
+}
+
+/// does glyph `g` have glyph 0 among its (transitive) components
+fn uses_glyph_zero(comps: &[Vec<u32>], g: u32) -> bool {
+    let mut seen = BTreeSet::new();
+    let mut stack = vec![g];
+    while let Some(x) = stack.pop() {
+        for k in comps.get(x as usize).map(|v| v.as_slice()).unwrap_or(&[]) {
+            if *k == 0 {
+                return true;
+            }
+            if seen.insert(*k) {
+                stack.push(*k);
+            }
+        }
+    }
+    false
+}
+
+/// largest number of segments with a non-zero idRangeOffset in a format 4 subtable of the font's cmap
+fn cmap4_range_offset_segments(font: &FontRef) -> usize {
+    let Ok(cmap) = font.cmap() else { return 0 };
+    let mut most = 0;
+    for rec in cmap.encoding_records() {
+        if let Ok(read_fonts::tables::cmap::CmapSubtable::Format4(t)) = rec.subtable(cmap.offset_data()) {
+            most = most.max(t.id_range_offsets().iter().filter(|o| o.get() != 0).count());
+        }
+    }
+    most
 }
 
 fn requests_of(c: &Case) -> (ReqChars, ReqGids) {
@@ -751,6 +844,9 @@ fn requests_of(c: &Case) -> (ReqChars, ReqGids) {
 
 fn test_with(c: &Case, stats: &Stats, kf_stage: bool) -> CaseResult {
     let Some(info) = font_named(&c.font) else {
+        if kf_stage {
+            return Ok(()); // the font of a listed finding is no longer in the corpus
+        }
         return Err(Fail::new("c17|setup", format!("font {} is not in the corpus", c.font)));
     };
     let orig = info.font();
@@ -758,16 +854,14 @@ fn test_with(c: &Case, stats: &Stats, kf_stage: bool) -> CaseResult {
     let a = Side { font: orig, n: info.n, maps: &info.maps, comps: &info.comps };
     let check_chars = !info.kf_cmap || kf_stage;
     let pass_tag = if kf_stage { format!("{}|", info.name) } else { String::new() };
-    let p1 = check_pass(&pass_tag, &a, &chars, &gids, c, check_chars, &info.var_glyphs, stats)?;
+    let p1 = check_pass(&info.name, &pass_tag, &a, &chars, &gids, c, check_chars, &info.var_glyphs, stats)?;
     if kf_stage {
         return Ok(());
     }
-    if !check_chars {
-        stats.class("excluded_known");
-    }
-
-    // --- subsetting the subset again with the same (translated) request changes nothing
-    if check_chars {
+    // --- subsetting the subset again with the same (translated) request changes nothing: every predicate holds again
+    // between the first subset and the second (hence, by the first pass, between the original and the second)
+    let mut soft = p1.soft.clone();
+    if check_chars && soft.is_none() {
         let sub = FontRef::new(&p1.bytes).map_err(|e| fail("", "open", format!("{e}")))?;
         let map1: BTreeMap<u32, u32> = p1.map.iter().copied().collect();
         let gids2 = match &gids {
@@ -780,29 +874,16 @@ fn test_with(c: &Case, stats: &Stats, kf_stage: bool) -> CaseResult {
         };
         let sn = sub.maxp().map(|m| m.num_glyphs() as u32).unwrap_or(0);
         let smaps = charmap_mappings(&sub);
-        let (scomps, _) = parse_components(&sub).ok_or_else(|| fail("resubset|", "open", "glyf/loca of the subset unreadable".into()))?;
-        let svar: Vec<u32> = vec![];
+        let (scomps, _, _) = parse_components(&sub).ok_or_else(|| fail("resubset|", "open", "glyf/loca of the subset unreadable".into()))?;
         let sa = Side { font: sub, n: sn, maps: &smaps, comps: &scomps };
-        let p2 = check_pass("resubset|", &sa, &chars, &gids2, c, true, &svar, stats)?;
-        let map2: BTreeMap<u32, u32> = p2.map.iter().copied().collect();
-        for (old, new) in &p1.map {
-            if !map2.contains_key(new) {
-                return Err(fail("resubset|", "kept-set", format!("glyph {old}->{new} kept by the first subset is dropped by the second")));
-            }
-        }
-        let sub2 = FontRef::new(&p2.bytes).map_err(|e| fail("resubset|", "open", format!("{e}")))?;
-        let sn2 = sub2.maxp().map(|m| m.num_glyphs() as u32).unwrap_or(0);
-        if sn2 != sn {
-            return Err(fail("resubset|", "glyph-count", format!("numGlyphs {sn} became {sn2}")));
-        }
-        let smaps2 = charmap_mappings(&sub2);
-        let expect: Vec<(u32, u32)> = smaps.iter().map(|(ch, g)| (*ch, map2.get(g).copied().unwrap_or(u32::MAX))).collect();
-        if smaps2 != expect {
-            let d = expect.iter().zip(smaps2.iter()).find(|(x, y)| x != y);
-            return Err(fail("resubset|", "charmap", format!("character map changed: {} vs {} mappings, first difference {d:?}", expect.len(), smaps2.len())));
-        }
-    } else {
+        let p2 = check_pass(&info.name, "resubset|", &sa, &chars, &gids2, c, true, &[], stats)?;
+        soft = p2.soft;
+        stats.class("resubset-checked");
+    } else if !check_chars {
         stats.class("excluded_known");
+    }
+    if let Some(f) = soft {
+        return Err(f);
     }
 
     // --- evidence
@@ -867,14 +948,57 @@ fn test(c: &Case, stats: &Stats) -> CaseResult {
     test_with(c, stats, false)
 }
 fn test_kf(c: &Case, stats: &Stats) -> CaseResult {
-    test_with(c, stats, true)
+    // the two listed findings are reproduced with font-keyed signatures; everything else is a plain regression case
+    let listed = KF_CMAP_FONTS.contains(&c.font.as_str()) || c.font == KF_ADOBE_BLANK;
+    if !listed && font_named(&c.font).is_none() {
+        return Ok(());
+    }
+    test_with(c, stats, listed)
 }
 
-/// requests on the fonts of KF_CMAP_FONTS: the first `k` mapped characters, k = 1 + i % 5
+/// glyph ids 0..k of a font, k chosen so that their glyf data just exceeds `bytes`
+fn prefix_gids(font: &str, bytes: u64) -> Vec<u32> {
+    let Some(f) = font_named(font) else { return vec![] };
+    let mut sum = 0u64;
+    let mut out = vec![];
+    for g in 0..f.n {
+        out.push(g);
+        sum += f.glen[g as usize] as u64 + (f.glen[g as usize] & 1) as u64;
+        if sum > bytes {
+            break;
+        }
+    }
+    out
+}
+
+const KF_ADOBE_BLANK: &str = "AdobeBlank-Regular.ttf";
+const KF_CASES: u64 = 19;
+
+/// 0..10  fonts of KF_CMAP_FONTS: k = 1 + j % 5 of the mapped characters, with and without RETAIN_GIDS (listed finding);
+/// 10     AdobeBlank-Regular.ttf, every second glyph id below 400 (each glyph carries ~540 characters: the subset
+///        cmap needs ~100k single-character groups) (listed finding);
+/// 11..   regression cases of two repaired defects, run through the full oracle (they must pass): subsets whose glyf
+///        table is 64..128 KB (short loca, offsets beyond 16 bits) or larger (long loca, odd glyph lengths), and
+///        subsets whose cmap format 4 needs several range-offset segments.
 fn kf_case(i: u64) -> Case {
+    let blank = Case { font: String::new(), chars: vec![], gids: vec![], star_chars: false, star_gids: false, flags: 0, ppems: vec![16.0], locs: vec![], pick: 0 };
+    let all_chars = |font: &str| -> Vec<u32> { font_named(font).map(|f| f.maps.iter().map(|m| m.0).collect()).unwrap_or_default() };
+    let all_gids = |font: &str| -> Vec<u32> { font_named(font).map(|f| (0..f.n).collect()).unwrap_or_default() };
+    match i {
+        10 => return Case { font: KF_ADOBE_BLANK.into(), gids: (0..400).step_by(2).collect(), ..blank },
+        11 => return Case { font: "IndicTestHowrah-Regular.ttf".into(), gids: prefix_gids("IndicTestHowrah-Regular.ttf", 66_000), flags: F_RETAIN_GIDS, ..blank },
+        12 => return Case { font: "Roboto-Regular.ttf".into(), gids: prefix_gids("Roboto-Regular.ttf", 70_000), pick: 77, ..blank },
+        13 => return Case { font: "DejaVuSans.ttf".into(), gids: prefix_gids("DejaVuSans.ttf", 100_000), flags: F_NOTDEF_OUTLINE, pick: 1234, ..blank },
+        14 => return Case { font: "DejaVuSans.ttf".into(), gids: all_gids("DejaVuSans.ttf"), chars: all_chars("DejaVuSans.ttf"), pick: 99, ..blank },
+        15 => return Case { font: "DejaVuSerif.ttf".into(), gids: prefix_gids("DejaVuSerif.ttf", 140_000), flags: F_RETAIN_GIDS | F_NO_HINTING, pick: 5, ..blank },
+        16 => return Case { font: "BungeeColor-Regular.ttf".into(), gids: all_gids("BungeeColor-Regular.ttf"), chars: all_chars("BungeeColor-Regular.ttf"), flags: F_NOTDEF_OUTLINE, ..blank },
+        17 => return Case { font: "ahem.ttf".into(), chars: all_chars("ahem.ttf"), ..blank },
+        18 => return Case { font: "BungeeColor-Regular.ttf".into(), gids: (0..868).step_by(2).collect(), flags: F_NOTDEF_OUTLINE, ..blank },
+        _ => {}
+    }
     let kf: Vec<&FontInfo> = fonts().iter().filter(|f| f.kf_cmap).collect();
     if kf.is_empty() {
-        return Case { font: String::new(), chars: vec![], gids: vec![], star_chars: false, star_gids: false, flags: 0, ppems: vec![16.0], locs: vec![], pick: 0 };
+        return blank;
     }
     let f = kf[(i as usize) % kf.len()];
     let j = i as usize / kf.len();
@@ -882,7 +1006,7 @@ fn kf_case(i: u64) -> Case {
     let start = (j / 5 * 3) % f.maps.len().max(1);
     let chars = f.maps.iter().skip(start).take(k).map(|m| m.0).collect();
     let flags = if j % 2 == 0 { 0 } else { F_RETAIN_GIDS };
-    Case { font: f.name.clone(), chars, gids: vec![], star_chars: false, star_gids: false, flags, ppems: vec![16.0], locs: vec![], pick: 0 }
+    Case { font: f.name.clone(), chars, flags, ..blank }
 }
 
 fn main() {
@@ -899,9 +1023,8 @@ fn main() {
             .map(|f| serde_json::json!({"name": f.name, "glyphs": f.n, "chars": f.maps.len(), "composites": f.composites.len(), "gvar_glyphs": f.var_glyphs.len(), "axes": f.naxes}))
             .collect::<Vec<_>>()),
     );
-    ctx.prop_stage("request", Isolation::Threads, ctx.n(6_000, 90_000), strategy, test);
-    ctx.prop_stage("everything", Isolation::Threads, ctx.n(400, 5_000), everything_strategy, test);
-    let nkf = fonts().iter().filter(|f| f.kf_cmap).count() as u64;
-    ctx.index_stage("kf-cmap", Isolation::Threads, nkf * 10, kf_case, test_kf);
+    ctx.prop_stage("request", Isolation::Threads, ctx.n(14_000, 120_000), strategy, test);
+    ctx.prop_stage("everything", Isolation::Threads, ctx.n(800, 6_000), everything_strategy, test);
+    ctx.index_stage("kf", Isolation::Threads, KF_CASES, kf_case, test_kf);
     ctx.finish();
 }
